@@ -639,7 +639,9 @@ impl Spec {
                 match self.penalty_verdict(&rpcs, &ptxid, w) {
                     None => {
                         out.push(Viol {
-                            props: &["C01"],
+                            // (C08 too: a receipt was issued for an appointment that is neither held nor responded to, and the
+                            // node did not refuse its penalty - it was not asked)
+                            props: &["C01", "C08"],
                             sig: "breach-not-answered:at-acceptance".into(),
                             detail: format!(
                                 "add(U{u},D{k}): D{k} is in the last blocks the tower holds, blob decrypts to {}, but the penalty was neither submitted nor known to the node",
